@@ -542,3 +542,7 @@ mod test {
         }
     }
 }
+
+#[cfg(kani)]
+#[path = "/verif/kani/path_owned.rs"]
+mod kani_verif;
